@@ -3,7 +3,7 @@
    "invariant; can't close stream", "negative update", flow.take "took too much", window-update
    overflow, nil body pipe in endStream) is the outcome c_bug = true / event (5,0,1). *)
 From Coq Require Import List ZArith Bool.
-From Bfe Require Import lib.Val model.H2Flow model.H2Stream run.RunC33 run.RunC35 proofs.H2StreamProofs.
+From Bfe Require Import lib.Val model.H2Flow model.H2Stream run.RunC33 run.RunC35 proofs.H2StreamProofs proofs.H2StreamCentralProofs.
 Import ListNotations.
 Open Scope Z_scope.
 
@@ -89,3 +89,34 @@ Theorem C35_cur_counts_live_streams : forall c,
   reach c -> c_dead c = false -> c_cur c = nlive (c_streams c).
 Proof. exact cur_counts_live_streams. Qed.
 Print Assumptions C35_cur_counts_live_streams.
+
+(* ---- central statement: prop_C35 = (no panic) && core_run (continues, or ends with exactly GOAWAY / close,
+   nothing afterwards, no panic-close event) && rules_run (client-side RFC rule validator) ---- *)
+(* Full statement (the rules_run clause is NOT proved in general):
+     forall i, wf_script i = true -> prop_C35 i (run_C35 i) = true            (kf_C35 = 0 everywhere).
+   Proved for ALL accepted inputs: the panic and core clauses hold on the model's output, i.e. prop_C35 on
+   the model reduces to the rule validator on the model's trace. *)
+Theorem C35_central_core : forall i isw maxs ops,
+  dec_script i = Some (isw, maxs, ops) ->
+  prop_C35 i (run_C35 i) =
+  rules_run (if maxs =? 0 then 200 else maxs) (mkR [] 0 false) ops (snd (run_ops (init_conn isw maxs) ops)).
+Proof. exact prop_C35_core. Qed.
+Print Assumptions C35_central_core.
+
+(* The whole central statement for ALL scripts of length <= 4 (41371 scripts, enumerated completely in Coq)
+   over: HEADERS on stream 1 (open / END_STREAM / trailers with and without END_STREAM), stream 3 (POST,
+   HEAD without END_STREAM), stream 2 (even); DATA on 1 (with/without END_STREAM) and 0; RST on 1 and on
+   idle 7; handler return; PUSH_PROMISE - with the default concurrency limit and with limit 1. *)
+Theorem C35_central_bounded_partial : forall i maxs ops,
+  dec_script i = Some (0, maxs, ops) -> maxs = 0 \/ maxs = 1 -> In ops (scripts 4 al35) ->
+  prop_C35 i (run_C35 i) = true.
+Proof. exact prop_C35_bounded. Qed.
+Print Assumptions C35_central_bounded_partial.
+
+Example C35_wf_corpus_case :
+  let i := VL [VL [VZ 0; VZ 1]; VL [VL [VZ 1; VZ 1; VZ 1; VZ 0; VZ (-1)]; VL [VZ 1; VZ 1; VZ 1; VZ 1; VZ (-1)];
+                                   VL [VZ 1; VZ 3; VZ 0; VZ 0; VZ (-1)]]] in
+  wf_script i = true /\
+  dec_script i = Some (0, 1, [OHeaders 1 true 0 (-1); OHeaders 1 true 1 (-1); OHeaders 3 false 0 (-1)]) /\
+  prop_C35 i (run_C35 i) = true.
+Proof. vm_compute. repeat split. Qed.
